@@ -252,3 +252,30 @@ def failed_install_segment(rep, tier, seed, label='gc-after-failed-install'):
                 rep.violation({'kind': 'K3-' + label + '-' + p['kind'], 'problem': p, 'options': job[3], 'history': job[4], 'fail': job[6]})
     rep.cov['failed_install_runs'] = n
 
+
+
+def replay_crash(rep, path):
+    """Re-run the recorded history under the I/O interposition, rebuild the crash image of the recorded
+    crash point / mode, run the real recovery on it and re-evaluate the contract. Exit 1 if it still fails."""
+    r = json.load(open(path))
+    if 'history' not in r or 'problem' not in r:
+        print(json.dumps(r)[:3000]); return 1
+    out = vlib.scratch_dir(); lib = vlib.build_lib(out, 'nothread')
+    k3 = vlib.build_k3(out, 'nothread', lib=lib); k2 = vlib.build_k2(out, 'nothread', lib=lib)
+    ops, batches = corpus_history(r['history'])
+    work = os.path.join(out, 'rp'); os.makedirs(work, exist_ok=True)
+    rc, o, e, evs, shadow = k3lib.run_traced(k3, os.path.join(work, 'db'), r['options'], ops, work)
+    calls = k2lib.parse_trace(o)
+    info = k3lib.batch_positions(evs, ops, batches, calls)
+    pr = r['problem']; p = pr.get('crash_point'); mode = pr.get('mode', 'written')
+    if p is None:
+        print('problem without a crash point:', json.dumps(pr)[:1000]); return 1
+    img = k3lib.image_at(evs, shadow, p, mode, vlib.Rng(r.get('history_seed', 0)))
+    rc2, rcalls, _ = k3lib.recover_and_read(k2, img, shadow, os.path.join(work, 'img'), r['options'], followup=FOLLOWUP_NOFLUSH)
+    print('crash point %s mode %s image %s' % (p, mode, sorted(img.items())))
+    if rc2 != 0 or len(rcalls) < 2 or rcalls[0]['ret'] is None or rcalls[0]['ret'].split(' ')[0] != '0':
+        print('recovery failed:', rcalls[0]['ret'] if rcalls else rc2); return 1
+    content, st = k3lib.scan_to_map(rcalls[1]['ret'])
+    ok, why, present = k3lib.check_recovered(content, batches, info, p, evs, power_loss=(mode != 'written'))
+    print('contract:', 'holds' if ok else 'VIOLATED: ' + why)
+    return 0 if ok else 1
